@@ -118,6 +118,8 @@ OPS_FULL = [
     ('checkout', 'error', None),
     ('checkout', 'todo', 1),
     ('checkout', 'todo', 2),
+    ('checkout', 'todo', 0),
+    ('checkout', 'error', 3),
     ('checkin', 0, 'done', True, None),
     ('checkin', 0, 'error', True, None),
     ('checkin', 0, 'skipped', False, None),
@@ -139,7 +141,7 @@ OPS_FULL = [
     ('contains', 1),
     ('count',),
 ]
-OPS_REDUCED = [OPS_FULL[i] for i in (0, 1, 2, 4, 7, 8, 10, 11, 12, 14, 16, 20, 21, 24, 25, 30)]
+OPS_REDUCED = [OPS_FULL[i] for i in (0, 1, 2, 4, 7, 8, 10, 11, 12, 13, 14, 16, 18, 22, 23, 26, 27, 32)]
 
 
 def url_of(x):
